@@ -127,7 +127,7 @@ def entity_row(rng, combo, dataset="trees", exprs=None, headers=None):
     return row
 
 
-# values of the settings `namespaces` cell (never declaring the prefix `entities` themselves): well-formed
+# values of the settings `namespaces` cell (the last three declare the prefix `entities` themselves): well-formed
 # declarations in the three quote styles, several at once, a prefix that is already standard, malformed tokens
 NAMESPACES = [
     'ex="http://example.com/xforms"',
@@ -142,6 +142,9 @@ NAMESPACES = [
     '="urn:noprefix" ex="urn:x"',
     'ex="urn:1" ex="urn:2"',
     "junk",
+    'entities="http://example.com/mine"',
+    'ex="urn:x" entities="http://www.opendatakit.org/xforms/entities"',
+    "entities='urn:first' entities='urn:second' b=\"urn:b\"",
 ]
 
 
@@ -420,6 +423,17 @@ def ent_cells_spec(ents):
     return out
 
 
+def user_entities_ns(nsv):
+    """the harness's own reading of what the settings cell itself declares for the prefix `entities`:
+    whitespace-separated tokens `prefix=uri` (exactly one `=`), quotes dropped, the last one wins"""
+    uri = None
+    for tok in (nsv or "").split():
+        parts = tok.split("=")
+        if len(parts) == 2 and parts[0] == "entities":
+            uri = parts[1].replace('"', "").replace("'", "")
+    return uri
+
+
 def namespaces_of(form):
     for st in form.get("settings") or []:
         if st.get("namespaces"):
@@ -461,8 +475,9 @@ def form_case(ctx, label, form):
     nsv = namespaces_of(form)
     mkw = {"namespaces": nsv} if nsv is not None else {}
     model = ctx.driver.call("entities.model", root=root, entities=ent_cells_raw(form.get("entities")), survey=sv, **mkw)
+    skw = {"user_entities_ns": user_entities_ns(nsv)} if user_entities_ns(nsv) is not None else {}
     spec = ctx.driver.call("entities.spec", root=root, version=entities_version(),
-                           entities=ent_cells_spec(form.get("entities")), survey=sv)
+                           entities=ent_cells_spec(form.get("entities")), survey=sv, **skw)
     ctx.count(f"{label}: impl:{r['class']}/spec:{spec['outcome']}/model:{model['outcome']}")
     case = {"label": label, "form": form}
     obs = None
@@ -549,6 +564,10 @@ def explore(ctx, factor, bs):
         check_lower_assumption()
         ir = ctx.driver.call("entities.ir")
         ctx.notes["entity_ir_translated_from_current_source"] = ir.get("fresh", True)
+        ctx.notes["entity_ir_fallback_reason"] = ir.get("fallback_reason", "")
+        import translate_entities
+
+        ctx.notes["translator_fragment"] = translate_entities.FRAGMENT
         ctx.notes["entity_ir"] = {k: v[:400] for k, v in ir.items() if isinstance(v, str)}
     for label, form in enumerate_cases(ctx, factor):
         form_case(ctx, label, form)
